@@ -6,7 +6,7 @@
 package latest
 
 //@ type Service
-//@   valid self.clientMonitor != nil && self.beaconBlockRootProviders != nil
+//@   valid self.clientMonitor != nil && self.beaconBlockRootProviders != nil && self.blockRootToSlotCache != nil
 //@   valid forall n string :: in(self.beaconBlockRootProviders, n) ==> self.beaconBlockRootProviders[n] != nil
 //@
 //@ // ---- C20: the goroutines a request starts all end, whether or not anybody still listens ----
@@ -16,11 +16,29 @@ package latest
 //@   thread
 //@   requires s != nil && opts != nil && provider != nil && !closed(respCh) && !closed(errCh)
 //@   // go-eth2-client returns a response with every nil error
-//@   assumes call BeaconBlockRoot#1 (r, err): err == nil ==> r != nil
+//@   assumes call BeaconBlockRoot#1 (r, err): err == nil ==> r != nil && r.Data != nil
+//@   chaninv respCh (m): m != nil && m.root != nil
+//@   chaninv errCh (m): m != nil
 //@   exit sends() == 1
 //@
+//@ // ---- C07: the root of the response with the highest slot (of the responses received), an error exactly when none was received ----
 //@ func (*Service).BeaconBlockRoot
 //@   requires s != nil && opts != nil
+//@   chaninv respCh (m): m != nil && m.root != nil
+//@   chaninv errCh (m): m != nil
+//@   // ghost history of the responses received so far: got[m] <=> response m was received
+//@   ghost n Int = 0
+//@   ghost got (Array Int Bool) = empty
+//@   at recv respCh: ghost n = n + 1
+//@   at recv respCh: ghost got[msg] = true
+//@   loop 2
+//@     invariant n >= 0 && (bestResp == nil <==> n == 0) && (bestResp != nil ==> got[bestResp] && bestResp.root != nil)
+//@     invariant forall m *beaconBlockRootResponse {got[m]} :: got[m] ==> m.slot <= bestResp.slot && n > 0
+//@   loop 3
+//@     invariant n >= 0 && (bestResp == nil <==> n == 0) && (bestResp != nil ==> got[bestResp] && bestResp.root != nil)
+//@     invariant forall m *beaconBlockRootResponse {got[m]} :: got[m] ==> m.slot <= bestResp.slot && n > 0
+//@   ensures result1 != nil <==> n == 0
+//@   ensures result1 == nil ==> result0 != nil && bestResp != nil && got[bestResp] && result0.Data == bestResp.root && (forall m *beaconBlockRootResponse {got[m]} :: got[m] ==> m.slot <= bestResp.slot)
 //@   // nstarted: the number of goroutines started so far. A goroutine is only started while both channels have room
 //@   // for one more message than there are goroutines already: as each sends exactly one message, none can block when
 //@   // the requester has stopped listening
